@@ -117,6 +117,7 @@ impl<'xml> Deserializer<'xml> {
             check_characters(xml)?;
         }
         loop {
+            let at_start = self.inner.buffer_position() == 0;
             let ev = self.inner.read_event().map_err(invalid_xml)?;
             let de = match ev {
                 Event::Start(x) => {
@@ -143,8 +144,29 @@ impl<'xml> Deserializer<'xml> {
                 // a CDATA section is character data
                 Event::CData(x) => DeEvent::Text(x.escape().map_err(|e| invalid_xml(e.into()))?),
 
-                // ignore the others
-                Event::Comment(_) | Event::Decl(_) | Event::PI(_) | Event::DocType(_) => continue,
+                // ignore the others once they are known to be well-formed
+                Event::Comment(x) => {
+                    // `--` may only end a comment
+                    if memchr::memmem::find(&x, b"--").is_some() || x.ends_with(b"-") {
+                        return Err(DeError::InvalidContent);
+                    }
+                    continue;
+                }
+                Event::PI(x) => {
+                    let target = x.target();
+                    if !is_xml_name(target) || target.eq_ignore_ascii_case(b"xml") {
+                        return Err(DeError::InvalidContent);
+                    }
+                    continue;
+                }
+                Event::Decl(x) => {
+                    // the XML declaration may only open the document
+                    if !at_start || x.version().is_err() {
+                        return Err(DeError::InvalidContent);
+                    }
+                    continue;
+                }
+                Event::DocType(_) => continue,
             };
             break Ok(de);
         }
